@@ -191,10 +191,14 @@ func (w *World) enabled() []Event {
 					want = h[len(h)-1]
 				}
 			}
-			if want == "late" {
-				// a check that takes 50 ms and then reports healthy
+			if want == "late" || want == "late150" {
+				// a check that takes 50 ms (150 ms: longer than the deadline of the context
+				// it is given, which it ignores) and then reports healthy
 				if op.NotBefore == 0 {
 					op.NotBefore = op.TIssue + 50*ms
+					if want == "late150" {
+						op.NotBefore = op.TIssue + 150*ms
+					}
 				}
 				if op.NotBefore <= now {
 					def = append(def, mk("ok"))
